@@ -17,6 +17,7 @@ import (
 	"os"
 	"path/filepath"
 	"strconv"
+	"strings"
 	"testing"
 	"time"
 
@@ -33,14 +34,14 @@ type mdlRows struct {
 }
 type mdlResult struct{ n int64 }
 
-func (mdlDriver) Open(string) (driver.Conn, error)      { return mdlConn{}, nil }
-func (mdlConn) Prepare(q string) (driver.Stmt, error)   { return mdlStmt{q}, nil }
-func (mdlConn) Close() error                            { return nil }
-func (mdlConn) Begin() (driver.Tx, error)               { return nil, errors.New("driver-level transactions unused") }
-func (mdlStmt) Close() error                            { return nil }
-func (mdlStmt) NumInput() int                           { return -1 }
-func (r mdlResult) LastInsertId() (int64, error)        { return 0, nil }
-func (r mdlResult) RowsAffected() (int64, error)        { return r.n, nil }
+func (mdlDriver) Open(string) (driver.Conn, error)    { return mdlConn{}, nil }
+func (mdlConn) Prepare(q string) (driver.Stmt, error) { return mdlStmt{q}, nil }
+func (mdlConn) Close() error                          { return nil }
+func (mdlConn) Begin() (driver.Tx, error)             { return nil, errors.New("driver-level transactions unused") }
+func (mdlStmt) Close() error                          { return nil }
+func (mdlStmt) NumInput() int                         { return -1 }
+func (r mdlResult) LastInsertId() (int64, error)      { return 0, nil }
+func (r mdlResult) RowsAffected() (int64, error)      { return r.n, nil }
 func toAny(args []driver.Value) []any {
 	out := make([]any, len(args))
 	for i, a := range args {
@@ -53,18 +54,9 @@ func (s mdlStmt) Exec(args []driver.Value) (driver.Result, error) {
 	return mdlResult{n}, err
 }
 func (s mdlStmt) Query(args []driver.Value) (driver.Rows, error) {
-	rows, err := vsql.Query(s.q, toAny(args))
+	rows, ncols, _, err := vsql.Run(s.q, toAny(args))
 	if err != nil {
 		return nil, err
-	}
-	ncols := 0
-	if len(rows) > 0 {
-		ncols = len(rows[0])
-	} else {
-		// column count from the statement text is not needed by database/sql when there are no rows,
-		// but Columns() must have the right length for Scan: count the select list
-		r, _ := vsql.SelectArity(s.q)
-		ncols = r
 	}
 	cols := make([]string, ncols)
 	for i := range cols {
@@ -95,14 +87,14 @@ func (r *mdlRows) Next(dest []driver.Value) error {
 func init() { sql.Register("verifsql-model", mdlDriver{}) }
 
 type vRow struct {
-	id, state         string
-	recv, next        int64
-	attempt           int64
-	leaseID           string
-	leaseUntil        int64
-	hasLease          bool
-	deadReason        string
-	hasDead           bool
+	id, state  string
+	recv, next int64
+	attempt    int64
+	leaseID    string
+	leaseUntil int64
+	hasLease   bool
+	deadReason string
+	hasDead    bool
 }
 
 func vDump(db *sql.DB) (string, error) {
@@ -120,9 +112,37 @@ func vDump(db *sql.DB) (string, error) {
 		if err := rows.Scan(&id, &state, &recv, &attempt, &next, &lease, &until, &dead); err != nil {
 			return "", err
 		}
-		out += fmt.Sprintf("%s|%s|%d|%d|%d|%v|%v|%v\n", id, state, recv, attempt, next, lease, until, dead)
+		out += fmt.Sprintf("%s|%s|%d|%d|%d|%v|%v|%v\n", id, state, recv, attempt, next, vCanonLease(lease), until, dead)
 	}
 	return out, rows.Err()
+}
+
+// generated lease ids are random on the real side and counters on the model side: compare them as "GEN"
+func vCanonLease(l sql.NullString) sql.NullString {
+	if l.Valid && l.String != "L0" && l.String != "L1" && l.String != "L2" {
+		l.String = "GEN"
+	}
+	return l
+}
+
+func vItems(r DequeueResponse, e error) string {
+	out := fmt.Sprint(e)
+	seen := map[string]bool{}
+	for _, it := range r.Items {
+		if it.LeaseID == "" || seen[it.LeaseID] {
+			out += "|BAD-LEASE-ID"
+		}
+		seen[it.LeaseID] = true
+		out += fmt.Sprintf("|%s,%s,%s,%s,%d,%d,%d,%q", it.ID, it.Route, it.Target, it.State, it.Attempt, it.ReceivedAt.UnixNano(), it.LeaseUntil.UnixNano(), it.Payload)
+	}
+	return out
+}
+
+func vErr(e error) string {
+	if e != nil && strings.Contains(e.Error(), "UNIQUE constraint") {
+		return ErrEnvelopeExists.Error() // the real driver's typed constraint error is mapped by mapQueueInsertError
+	}
+	return fmt.Sprint(e)
 }
 
 func vDumpModel() string {
@@ -148,6 +168,7 @@ func vDumpModel() string {
 		lease := sql.NullString{String: col(r, "lease_id").S, Valid: !col(r, "lease_id").Null}
 		dead := sql.NullString{String: col(r, "dead_reason").S, Valid: !col(r, "dead_reason").Null}
 		until := sql.NullInt64{Int64: col(r, "lease_until").I, Valid: !col(r, "lease_until").Null}
+		lease = vCanonLease(lease)
 		out += fmt.Sprintf("%s|%s|%d|%d|%d|%v|%v|%v\n", col(r, "id").S, col(r, "state").S, col(r, "received_at").I, col(r, "attempt").I, col(r, "next_run_at").I, lease, until, dead)
 	}
 	return out
@@ -160,7 +181,7 @@ func TestVerifSQLModelDifferential(t *testing.T) {
 			seed = n
 		}
 	}
-	iters := 400
+	iters := 1500
 	if os.Getenv("VERIF_TIER") == "thorough" {
 		iters = 4000
 	}
@@ -168,6 +189,7 @@ func TestVerifSQLModelDifferential(t *testing.T) {
 	dir := t.TempDir()
 	base := int64(1700000000) * 1e9
 	steps, changed, refused := 0, 0, 0
+	changedByOp := make([]int, 16)
 	for it := 0; it < iters; it++ {
 		now := time.Unix(0, base+int64(rng.Intn(7)))
 		clock := func() time.Time { return now }
@@ -177,9 +199,21 @@ func TestVerifSQLModelDifferential(t *testing.T) {
 		}
 		mdb, _ := sql.Open("verifsql-model", "")
 		mdb.SetMaxOpenConns(1)
-		model := &SQLiteStore{db: mdb, nowFn: clock, notify: make(chan struct{}), dropPolicy: "reject", metrics: newSQLiteRuntimeMetrics()}
+		model := &SQLiteStore{db: mdb, nowFn: clock, notify: make(chan struct{}), dropPolicy: "reject", metrics: newSQLiteRuntimeMetrics(), pollInterval: real.pollInterval}
 		if rng.Intn(2) == 1 {
 			real.deliveredRetentionMaxAge, model.deliveredRetentionMaxAge = time.Hour, time.Hour
+		}
+		if rng.Intn(2) == 1 {
+			real.maxDepth = 1 + rng.Intn(3)
+			if rng.Intn(2) == 1 {
+				real.dropPolicy = "drop_oldest"
+			}
+			model.maxDepth, model.dropPolicy = real.maxDepth, real.dropPolicy
+		}
+		if rng.Intn(3) == 0 {
+			// pruning on Enqueue/Dequeue: age-based for queued and dead, depth-based for the DLQ
+			real.pruneInterval, real.retentionMaxAge, real.dlqRetentionMaxAge, real.dlqMaxDepth = 1, time.Duration(rng.Intn(4)), time.Duration(rng.Intn(4)), rng.Intn(2)
+			model.pruneInterval, model.retentionMaxAge, model.dlqRetentionMaxAge, model.dlqMaxDepth = real.pruneInterval, real.retentionMaxAge, real.dlqRetentionMaxAge, real.dlqMaxDepth
 		}
 		vsql.Current = &vsql.DB{}
 		states := []State{StateQueued, StateLeased, StateDelivered, StateDead, StateCanceled}
@@ -188,6 +222,7 @@ func TestVerifSQLModelDifferential(t *testing.T) {
 			st := states[rng.Intn(5)]
 			id := fmt.Sprintf("m%d", i)
 			recv, next, attempt := base+int64(rng.Intn(5)), base+int64(rng.Intn(7)), int64(rng.Intn(3))
+			route := []string{"r0", "r1"}[rng.Intn(2)]
 			var lease, until, dead any
 			if st == StateLeased {
 				lease, until = fmt.Sprintf("L%d", i), base+int64(rng.Intn(7))
@@ -195,8 +230,8 @@ func TestVerifSQLModelDifferential(t *testing.T) {
 			if st == StateDead {
 				dead = "max_retries"
 			}
-			if _, err := real.db.Exec(`INSERT INTO queue_items (id, route, target, state, received_at, attempt, next_run_at, payload, headers_json, trace_json, schema_version, dead_reason, lease_id, lease_until) VALUES (?, 'r0', 't0', ?, ?, ?, ?, x'70', NULL, NULL, 1, ?, ?, ?)`,
-				id, string(st), recv, attempt, next, dead, lease, until); err != nil {
+			if _, err := real.db.Exec(`INSERT INTO queue_items (id, route, target, state, received_at, attempt, next_run_at, payload, headers_json, trace_json, schema_version, dead_reason, lease_id, lease_until) VALUES (?, ?, 't0', ?, ?, ?, ?, x'70', NULL, NULL, 1, ?, ?, ?)`,
+				id, route, string(st), recv, attempt, next, dead, lease, until); err != nil {
 				t.Fatal(err)
 			}
 			row := &vsql.Row{V: make([]vsql.Val, len(vsql.Columns))}
@@ -218,10 +253,20 @@ func TestVerifSQLModelDifferential(t *testing.T) {
 				}
 				return vsql.NullVal
 			}
-			set("id", vsql.Text(id)); set("route", vsql.Text("r0")); set("target", vsql.Text("t0")); set("state", vsql.Text(string(st)))
-			set("received_at", vsql.Int(recv)); set("attempt", vsql.Int(attempt)); set("next_run_at", vsql.Int(next)); set("payload", vsql.Text("p"))
-			set("headers_json", vsql.NullVal); set("trace_json", vsql.NullVal); set("schema_version", vsql.Int(1))
-			set("dead_reason", nv(dead)); set("lease_id", nv(lease)); set("lease_until", nv(until))
+			set("id", vsql.Text(id))
+			set("route", vsql.Text(route))
+			set("target", vsql.Text("t0"))
+			set("state", vsql.Text(string(st)))
+			set("received_at", vsql.Int(recv))
+			set("attempt", vsql.Int(attempt))
+			set("next_run_at", vsql.Int(next))
+			set("payload", vsql.Text("p"))
+			set("headers_json", vsql.NullVal)
+			set("trace_json", vsql.NullVal)
+			set("schema_version", vsql.Int(1))
+			set("dead_reason", nv(dead))
+			set("lease_id", nv(lease))
+			set("lease_until", nv(until))
 			vsql.Current.Rows = append(vsql.Current.Rows, row)
 		}
 		leaseMenu := []string{"L0", "L1", "L2", "zz", "", " L0 "}
@@ -231,7 +276,14 @@ func TestVerifSQLModelDifferential(t *testing.T) {
 			d := time.Duration(rng.Intn(5) - 1)
 			l1, l2 := leaseMenu[rng.Intn(len(leaseMenu))], leaseMenu[rng.Intn(len(leaseMenu))]
 			i1, i2 := idMenu[rng.Intn(len(idMenu))], idMenu[rng.Intn(len(idMenu))]
-			op := rng.Intn(12)
+			op := rng.Intn(16)
+			route := []string{"", "r0", "r1"}[rng.Intn(3)]
+			batch := 1 + rng.Intn(3)
+			newID := []string{"m0", "m1", "n1", "n2"}[rng.Intn(4)]
+			if rng.Intn(2) == 1 {
+				// make the next dequeue sweep expired leases (otherwise it does only once per poll interval)
+				real.lastLeaseSweepNanos, model.lastLeaseSweepNanos = 0, 0
+			}
 			run := func(s *SQLiteStore) string {
 				switch op {
 				case 0:
@@ -263,6 +315,13 @@ func TestVerifSQLModelDifferential(t *testing.T) {
 				case 10:
 					r, e := s.RequeueDead(DeadRequeueRequest{IDs: []string{i1, i2}})
 					return fmt.Sprint(r.Requeued, e)
+				case 12, 13:
+					return vItems(s.Dequeue(DequeueRequest{Route: route, Batch: batch, LeaseTTL: time.Duration(1 + rng.Intn(1))}))
+				case 14:
+					return vErr(s.Enqueue(Envelope{ID: newID, Route: "r0", Target: "t0", Payload: []byte("q")}))
+				case 15:
+					n, e := s.EnqueueBatch([]Envelope{{ID: newID, Route: "r1", Target: "t0"}, {ID: "n3", Route: "r0", Target: "t0", Payload: []byte("zz")}})
+					return fmt.Sprint(n) + vErr(e)
 				}
 				r, e := s.DeleteDead(DeadDeleteRequest{IDs: []string{i1, i2}})
 				return fmt.Sprint(r.Deleted, e)
@@ -282,6 +341,7 @@ func TestVerifSQLModelDifferential(t *testing.T) {
 				t.Fatalf("iteration %d step %d op %d: tables differ\nreal:\n%smodel:\n%s", it, step, op, da, db)
 			}
 			if db != before {
+				changedByOp[op]++
 				changed++
 			} else {
 				refused++
@@ -289,8 +349,13 @@ func TestVerifSQLModelDifferential(t *testing.T) {
 		}
 		real.Close()
 	}
+	for op, n := range changedByOp {
+		if n == 0 && op != 2 { // (Extend only moves lease_until forward; with these tiny tables it may or may not)
+			t.Fatalf("validation is vacuous: operation %d never changed the table", op)
+		}
+	}
 	if changed < iters/4 || refused < iters/4 {
 		t.Fatalf("validation is vacuous: %d operations changed the table, %d left it alone", changed, refused)
 	}
-	t.Logf("VERIF-SQLMODEL-VALIDATION ok iterations=%d operations=%d (table-changing=%d, no-change=%d) seed=%d", iters, steps, changed, refused, seed)
+	t.Logf("VERIF-SQLMODEL-VALIDATION ok iterations=%d operations=%d (table-changing=%d per operation kind %v, no-change=%d) seed=%d", iters, steps, changed, changedByOp, refused, seed)
 }
